@@ -13,7 +13,7 @@ A case:
      "durations": {"op-000:1": 5.0, ...},   # virtual duration of the original submission (default 1.0)
      "backup_durations": {"op-000:1": 1.0}, # duration of a backup submission (default 1.0)
      "fails": {"op-000:1": 1},              # leading failing attempts of the original submission (<= retries => run must succeed)
-     "parallel": bool, "batch_size": None | int, "use_backups": bool, "retries": 0..2, "order": "of"|"bf"|"rof"|"rbf"|"native"}
+     "parallel": bool, "batch_size": None | int, "use_backups": bool, "retries": 0..2, "order": "of"|"bf"|"rof"|"rbf"|"native", "hperm": 0..5 (iteration order of cubed's sets of futures)}
 
 Oracle (sequence-based, so ties in virtual time cannot blur it): for every op X with a pipeline and every DAG ancestor op
 Y with a pipeline (not marked computed), every submission of a task of X happens after the first successful completion
@@ -116,7 +116,7 @@ def run_dag(case):
     retries = case.get("retries", 2)
     use_backups = case.get("use_backups", False)
 
-    loop = VirtualTimeLoop(max_time=1e5, max_iters=600_000)
+    loop = VirtualTimeLoop(max_time=1e5, max_iters=600_000, hash_perm=case.get("hperm", 0))
     reg = {}
 
     def schedule(sub):
@@ -334,7 +334,7 @@ def dag_cases(max_ops=8):
         case = {"kind": "dag", "ops": ops, "create_arrays": draw(st.sampled_from([True, True, True, False])),
                 "durations": durs, "backup_durations": bd, "fails": fl,
                 "parallel": draw(st.sampled_from([True, True, False])), "batch_size": draw(st.sampled_from([None, None, 1, 2, 10, mx, mx + 3])),
-                "use_backups": use_backups, "retries": retries, "order": draw(st.sampled_from(["of", "bf", "rof", "rbf", "native"]))}
+                "use_backups": use_backups, "retries": retries, "order": draw(st.sampled_from(["of", "bf", "rof", "rbf", "native"])), "hperm": draw(st.integers(0, 5))}
         return case
 
     return gen()
